@@ -646,10 +646,10 @@ impl C10 {
 // ---------------------------------------------------------------- generators
 
 fn gen_std(rng: &mut StdRng, n: usize, ops: &mut Vec<Value>) {
-    let secs: Vec<i64> = vec![0, 1, -1, i64::MAX, i64::MAX - 1, i64::MAX - 2, i64::MIN, i64::MIN + 1, i64::MIN + 2,
+    let secs: Vec<i64> = vec![0, 1, -1, i64::MAX, i64::MAX - 1, i64::MAX - 2, i64::MIN, i64::MIN + 1, i64::MIN + 2, i64::MIN + 3,
         253_402_300_799, 253_402_300_800, -62_135_596_800, -62_135_596_801, -377_705_116_800, -377_705_116_801, 1_700_000_000, 1 << 62, -(1 << 62)];
     let nanos: Vec<i64> = vec![0, 1, -1, 999_999_999, 1_000_000_000, 1_000_000_001, -999_999_999, -1_000_000_000,
-        -1_000_000_001, 1_999_999_999, 2_000_000_000, -2_000_000_000, i32::MAX as i64, i32::MIN as i64];
+        -1_000_000_001, -2_000_000_001, 1_999_999_999, 2_000_000_000, -2_000_000_000, i32::MAX as i64, i32::MIN as i64];
     for op in ["dur", "ts"] {
         for s in &secs {
             for n in &nanos {
@@ -1259,7 +1259,13 @@ impl C10 {
                 let t = zksync_protobuf::proto::std::Timestamp { seconds: p.seconds, nanos: p.nanos };
                 let d = if op["op"] == "dur" { time::Duration::read(&p) } else { time::Utc::read(&t).map(|u| u - time::UNIX_EPOCH) };
                 match d {
-                    Ok(d) => json!({"class": "ok", "secs": d.whole_seconds(), "nanos": d.subsec_nanoseconds()}),
+                    Ok(d) => {
+                        // `build()` (re-encoding for hashes / re-gossip) of an accepted value, and that it reads back
+                        let b = d.build();
+                        let back = time::Duration::read(&b).ok();
+                        json!({"class": "ok", "secs": d.whole_seconds(), "nanos": d.subsec_nanoseconds(),
+                            "build_s": b.seconds, "build_n": b.nanos, "_roundtrip": back == Some(d)})
+                    }
                     Err(e) => json!({"class": "err", "_why": format!("{e:#}")}),
                 }
             }
@@ -2508,6 +2514,12 @@ impl Prop for C10 {
         let r = match kind.as_str() {
             "dur" | "ts" | "bitvec" | "sockaddr" => {
                 let mut r = catch(|| self.exec_std(op));
+                // S: an accepted duration / timestamp re-encodes to something that reads back as the same value
+                if let Ok(v) = &r {
+                    if v["class"] == "ok" && v.get("_roundtrip") == Some(&json!(false)) {
+                        out.oracle_fail("std_conv:build_overflow", "build() of an accepted Duration/Timestamp does not read back (seconds overflowed)", op.clone());
+                    }
+                }
                 // S: a decoded timestamp can be rendered (the debug page prints `NetAddress.timestamp` with Display)
                 if kind == "ts" && matches!(&r, Ok(v) if v["class"] == "ok") {
                     let t = zksync_protobuf::proto::std::Timestamp { seconds: op["s"].as_i64(), nanos: op["n"].as_i64().map(|x| x as i32) };
